@@ -564,6 +564,29 @@ Proof.
 Qed.
 Print Assumptions C02_source_tie.
 
+(* Round 6 strengthening — a row subset taken BEFORE the first parse.  The lazily read table / the buffer keeps the bytes
+   and selects rows of its start / end tables and record ends (Model.table_select: any index list — repeats, any order; masks,
+   slices, negative indices are index lists by NumPy's rules); Model.run_sel parses the columns only then.  Parsing a
+   selection = selecting the parsed rows: for every column type computed row by row — text, identifier, Optional[int], float,
+   strand, qualities, integer lists and the REST-OF-LINE column (SAM tags: it ends at the row's OWN record end, whatever rows
+   were dropped around it) — whenever the whole column parses, the column of the selection is the selection of the column. *)
+Theorem C02_typed_col_select :
+  forall (t : table) (idx : list Z) (j : Z) (ty : ctype) (c : list cell),
+    table_rect t -> idx_ok (List.length (t_starts t)) idx -> row_local ty = true ->
+    typed_col t j ty = Col c ->
+    typed_col (table_select idx t) j ty = Col (take_rows (CInt 0) c idx).
+Proof. exact typed_col_select. Qed.
+Print Assumptions C02_typed_col_select.
+(* integer columns are computed from the WHOLE column (widest field, any sign present): on numerals the selection commutes too *)
+Theorem C02_int_col_select :
+  forall (t : table) (idx : list Z) (j : Z),
+    table_rect t -> idx_ok (List.length (t_starts t)) idx ->
+    (forall se, In se (bounds t j) -> 0 <= fst se /\ snd se <= len (t_data t) /\ numeral (text_at (t_data t) se) = true) ->
+    forall c, parse_int_col (t_data t) (bounds t j) = Some c ->
+    parse_int_col (t_data (table_select idx t)) (bounds (table_select idx t) j) = Some (take_rows 0 c idx).
+Proof. exact int_col_select. Qed.
+Print Assumptions C02_int_col_select.
+
 (* ---------- non-vacuity ---------- *)
 (* a CRLF table with an empty field, a 1-byte field and a 9-byte field in one column meets the hypotheses of T1,
    and the executable model really returns those fields *)
@@ -709,6 +732,18 @@ Example C02_nonvacuous_fasta_nofinal :
   spec_file Ffasta 2 true false [] recs [] = unhex "3e610d0a41430d0a470d0a3e620d0a540a"%string
   /\ run Ffasta None (spec_file Ffasta 2 true false [] recs []) = Obs 2 (spec_cols Ffasta None recs) true
   /\ nth 1 (spec_cols Ffasta None recs) ColErr = Col [CBytes (unhex "414347"); CBytes (unhex "54")]%string.
+Proof. vm_compute. repeat split; reflexivity. Qed.
+(* SAM, three records (tags / no tags / tags), rows [2; 0; 0] selected before parsing: the tags of row 0 are its own, not the
+   text up to the next kept row; widths of the integer columns differ between the selection and the file *)
+Example C02_nonvacuous_select :
+  let rows := [[unhex "7231"; unhex "30"; unhex "63"; unhex "35"; unhex "3630"; unhex "344d"; unhex "2a"; unhex "30"; unhex "2d37"; unhex "41434754"; unhex "49494949"; unhex "4e4d3a693a30"];
+               [unhex "7232"; unhex "3136"; unhex "63"; unhex "31353030"; unhex "30"; unhex "324d"; unhex "3d"; unhex "33"; unhex "30"; unhex "4143"; unhex "217e"];
+               [unhex "7233"; unhex "34"; unhex "2a"; unhex "30"; unhex "30"; unhex "2a"; unhex "2a"; unhex "30"; unhex "30"; unhex "2a"; unhex "2a"; unhex "58583a5a3a61"; unhex "434f3a5a3a62"]]%string in
+  let file := body_of false rows in
+  run_sel Fsam None file [2; 0; 0] = Obs 3 (map (colres_select [2; 0; 0]) (spec_cols Fsam None rows)) true
+  /\ nth 11 (map (colres_select [2; 0; 0]) (spec_cols Fsam None rows)) ColErr
+      = Col [CBytes (unhex "58583a5a3a6109434f3a5a3a62"); CBytes (unhex "4e4d3a693a30"); CBytes (unhex "4e4d3a693a30")]%string
+  /\ nth 3 (map (colres_select [2; 0; 0]) (spec_cols Fsam None rows)) ColErr = Col [CInt 0; CInt 5; CInt 5].
 Proof. vm_compute. repeat split; reflexivity. Qed.
 (* a whole BED6 file through the whole model *)
 Example C02_nonvacuous_run :
